@@ -473,6 +473,8 @@ class Folder:
             return True
         if isinstance(v, (_np.generic, complex)):
             return bool(v)                              # a concrete numpy / complex scalar
+        if getattr(v, "_sa_model", False) and (hasattr(type(v), "__bool__") or hasattr(type(v), "__len__")):
+            return bool(v)                              # a checker-side model that states its own truth value
         raise Undecidable(f"truth of {v!r} in {norm(node)}")
 
     def expr(self, e) -> Any:
@@ -536,8 +538,8 @@ class Folder:
                 return getattr(base, e.attr)          # concrete numpy value (allocated by the folded code with literal extents)
             if isinstance(base, sp.Basic) and e.attr in ("is_zero", "is_real", "is_number"):
                 return getattr(base, e.attr)
-            if getattr(base, "_sa_model", False) and hasattr(base, e.attr) and not callable(getattr(base, e.attr)):
-                return getattr(base, e.attr)          # data attribute of a checker-side model object
+            if getattr(base, "_sa_model", False) and hasattr(base, e.attr) and (not callable(getattr(base, e.attr)) or getattr(getattr(base, e.attr), "_sa_model", False)):
+                return getattr(base, e.attr)          # data attribute of a checker-side model object (possibly another model object)
             raise Undecidable(f"attribute {txt}")
         if isinstance(e, (ast.Set,)):
             return set(self.expr(x) for x in e.elts)              # a set display is a new mutable set
